@@ -79,6 +79,8 @@ AllClauses(st, c) ==
     \o (IF c.downs # st.downs THEN <<"links">> ELSE <<>>)
     \o (IF \E t \in Tags : c.rc[t] # st.rc[t + 1] THEN <<"refcounts">> ELSE <<>>)
     \o (IF c.cbs # st.cbs THEN <<"callbacks">> ELSE <<>>)
+    \* a completion callback the real run has fired and the specification has not (yet): the element is still held somewhere
+    \o (IF \E i \in 1 .. Len(st.cbs) : \A j \in 1 .. Len(c.cbs) : c.cbs[j] # st.cbs[i] THEN <<"callbacks_early">> ELSE <<>>)
 
 \* the property invariants of SyncFlow, evaluated in the current state; "" if all hold
 InvVerdict ==
